@@ -12,6 +12,7 @@ import os
 import re
 
 from ..facts import peel, strip_casts, show, walk, cond_atom
+from . import gates as G
 from .common import (callee_short, field_of, base_of, assigned_target, const_int, local_ref, deref)
 from .C04 import switch_arms
 
@@ -172,9 +173,48 @@ def run(ctx):
                     tgt = show(n["x"])
                     ctx.ob("R05.2", inst + "|on-" + row["target_element"], ("." + row["target_element"] + "()") in tgt.replace("->", "."), f.loc(n),
                            "flag applied to %s (spec: the %s() parameter)" % (tgt, row["target_element"]))
+    # each member-controlled flag is set EXACTLY when its source holds: the sites are behind the source test (above, for
+    # the nearest test; here for any nesting), and from the edge on which the source holds no path leaves the
+    # iteration / the function without passing a site
     for key, row in member_rows.items():
-        if key not in seen_rows:
-            ctx.broken("roles.json row %s has no code site (anchor moved?)" % (key,))
+        short, dflag = key
+        fs = [f for f in builders if f.name.split("::")[-1] == short]
+        sites = []
+        for f in fs:
+            for n in f.walk():
+                if n.get("k") == "bin" and n.get("op") == "|=" and any(x.get("k") == "ref" and x.get("dk") == "enumc" and x["n"].split("::")[-1] == dflag for x in walk(n["y"])):
+                    fl = field_of(n["x"]) or ""
+                    if fl.startswith("Interrogate") and fl.split("::")[-1] in ("_flags", "_parameter_flags"):
+                        sites.append((f, n))
+        if not sites:
+            ctx.broken("roles.json row %s: the flag is not set anywhere in %s (anchor moved?)" % (key, short))
+        f = sites[0][0]
+        cfg = f.cfg
+        want_true = not row.get("negated")
+
+        def source_holds(atom, truth, row=row):
+            nm = atom.get("n") if atom.get("k") == "mem" else (atom.get("f") if atom.get("k") == "call" else None)
+            return nm == row["source"] and truth == want_true
+        edges = G.edges_where(f, source_holds)
+        if not edges:
+            ctx.ob("R05.2", "%s|%s|source-tested" % key, False, f.loc(sites[0][1]), "no branch tests %s%s in %s" % ("!" if row.get("negated") else "", row["source"], short))
+            continue
+        site_blocks = [cfg.locate(n)[0] for ff, n in sites if ff is f and cfg.locate(n) is not None]
+        for ff, n in sites:
+            if key not in seen_rows:
+                ctx.ob("R05.2", "%s|%s|behind-source" % key, G.gated(ff, n, edges), ff.loc(n), "%s is set only when %s%s" % (dflag, "!" if row.get("negated") else "", row["source"]))
+        miss = None
+        for (b, idx) in edges:
+            s0 = cfg.blocks[b].succs[idx]
+            if s0 is None or s0 in site_blocks:
+                continue
+            reach = cfg.reachable(s0, cut_blocks=site_blocks)
+            if cfg.exit in reach or b in reach:
+                miss = b
+        ctx.ob("R05.2", "%s|%s|whenever-source" % key, miss is None, f.loc(sites[0][1]),
+               "%s is set on every path on which %s%s holds" % (dflag, "!" if row.get("negated") else "", row["source"]) if miss is None else
+               "%s is NOT set on some path on which %s%s holds (a further condition lies between the test and the flag)" % (dflag, "!" if row.get("negated") else "", row["source"]))
+        seen_rows.add(key)
     ctx.floor("R05.2", "flag translation sites judged", n_tr, 28)
 
     # ------------------------------------------------------------ R05.3
